@@ -56,6 +56,19 @@ CLAIMED = {
         "partition's are sampled. Identity arguments only for accumulate/map_reduce.",
    technique="TLA+ abstract specification + TLC model checking of the partition protocol + TLC trace validation of real runs (free and controlled schedules)",
    engine="mc+free+ctl+tv", design_ref="6/C16"),
+ "C11": dict(
+   category="model_checking",
+   text="StaticAbs.tla defines what a static graph must present (exact out-edges in file order for the CSR/linear/inline layouts, "
+        "bags for morph-LC, in-edge and transpose bags, sorted views as sorted permutations, exact lookup answers, degrees, local "
+        "ranges that partition the nodes); CSRTranspose.tla model-checks the count / prefix / fetch-and-add transpose for all graphs "
+        "with 3-4 nodes and 4-5 edges and all interleavings (and rejects a non-atomic claim); every layout and option (LC_CSR +numa/"
+        "no-lockable/out-of-line, CSR_CSC shared/by-value, InOut, Linear, InlineEdge, Morph-LC; void/int/uint64 edge data; "
+        "readGraph, readGraphFromGRFile, user arrays) is built on 1-8 threads from independently written files and TLC judges "
+        "every view, lookup table, degree vector and range list.",
+   note="Trusted: TLC, the harness's independent .gr writer and logging, the in-harness rule copy for the few large graphs. "
+        "Builder schedules are sampled.",
+   technique="TLA+ abstract graph specification + TLC model checking of the concurrent transpose + TLC trace validation of real constructions",
+   engine="mc+free+tv", design_ref="6/C11"),
  "C05": dict(
    category="model_checking",
    text="Each barrier (counting, MCS tree, dissemination, topology-aware for 6 socket layouts, the condition-variable "
